@@ -21,6 +21,8 @@ MANIFEST = dict(
     engines=[dict(name="E-sched", path="harness/src/eng_sched.rs (hooks build) + coq/extract/eng_sched.ml + vlib/lsp.py",
                   kind_free_text="forced schedules at yield points in-process; pipelined stress against the real binary; model: extracted Sched.run")],
 )
+MANIFEST["text"] += ' Fourth session: sixth yield point (between the lint walk and taking the collected diagnostics) with forced schedules of two diagnostics requests around it.'
+
 ASSUMPTIONS = [
     "critical sections (regions under the DocumentInfo write lock) are atomic steps of the model",
     "documentSymbol is served on the main thread and cannot overlap a notification",
